@@ -9,7 +9,13 @@ T3 == << <<"cfg">>, <<"key">>, <<"level">>, <<"new">>, <<"file", "">>, <<"append
 T4 == << <<"cfg">>, <<"key">>, <<"new">>, <<"end">>, <<"renew">> >>
 T5 == << <<"cfg">>, <<"key">>, <<"new">>, <<"file", "a">>, <<"append", "a", 40>>, <<"close", "a">>, <<"file", "b">>, <<"file", "c">>,
          <<"append", "c", 9>>, <<"append", "b", 33>>, <<"close", "b">>, <<"append", "c", 50>>, <<"close", "c">>, <<"end">> >>
-AllTemplates == <<T1, T2, T3, T4, T5>>
+\* a COUNT of files: seventy files through the C interface (creation, extraction with one writer per file)
+Nm(i) == "f" \o ToString(i)
+T6 == << <<"cfg">>, <<"key">>, <<"new">> >> \o
+      [k \in 1..(3 * 70) |-> LET i == ((k - 1) \div 3) + 1  j == (k - 1) % 3 IN
+          IF j = 0 THEN <<"file", Nm(i)>> ELSE IF j = 1 THEN <<"append", Nm(i), 1 + (i % 9)>> ELSE <<"close", Nm(i)>>] \o
+      << <<"end">> >>
+AllTemplates == <<T1, T2, T3, T4, T5, T6>>
 Replay == (phase = "done") => PrintT(<<"REPLAY", ToJson([tpl |-> tpl, calls |-> Calls, fault |-> fault, sched |-> sched, decline |-> decline,
                                                           expect |-> expect, complete |-> ArchiveComplete])>>)
 =============================================================================
